@@ -176,6 +176,16 @@ Definition fmt_dec (n : Z) : bytes :=
 Inductive skind := SUtf8 | SLarge | SEnum.
 Inductive bkind := BBin | BLarge | BFix (n : Z).
 
+(* the method set of a NAMED Go type (type Priority string + methods).  The
+   serializer works on the value's Kind; none of these may influence what goes
+   on the wire (Theorem roundtrip_ignores_methods). *)
+Record meths := {
+  m_stringer_val : bool;      (* String() on the value receiver, not the identity *)
+  m_stringer_ptr : bool;      (* String() on the pointer receiver *)
+  m_stringer_id : bool;       (* String() returning the underlying value *)
+  m_error : bool;             (* Error() *)
+  m_text : bool }.            (* MarshalText() *)
+
 Inductive ty :=
 | TInt (g a : ity)            (* Go integer kind g carried in Arrow integer type a *)
 | TFlt (is64 : bool)          (* float64 / float32, bit patterns *)
@@ -187,7 +197,8 @@ Inductive ty :=
 | TPtr (t : ty)
 | TList (t : ty)
 | TMap (k v : ty)
-| TStruct (fs : list ty).
+| TStruct (fs : list ty)
+| TNamed (m : meths) (t : ty).   (* a named type with method set m whose underlying type is t *)
 
 Inductive gv :=
 | GInt (z : Z) | GFlt (b : Z) | GBool (b : bool)
@@ -245,6 +256,20 @@ Definition fix_ok (k : bkind) (b : bytes) : bool :=
   match k with BFix n => Z.of_nat (length b) =? n | _ => true end.
 Definition is_ptr (t : ty) : bool := match t with TPtr _ => true | _ => false end.
 
+(* which underlying types the serializer accepts under a NAMED Go type:
+   asString (utf8 / large_utf8 / dictionary / decimal text) and asBytes
+   (large_binary, fixed_size_binary) look at the Kind; the plain BINARY case
+   asserts value.([]byte), toInt64 / toUint64 / toFloat64 and the BOOL case
+   switch on the exact Go type, so a named integer / float / bool / []byte in a
+   binary column is refused ("cannot convert ..."). *)
+Definition named_enc_ok (t : ty) : bool :=
+  match t with
+  | TStr _ | TDec => true
+  | TBin BBin => false
+  | TBin _ => true
+  | _ => false
+  end.
+
 Fixpoint enc (t : ty) (x : gv) {struct t} : option wv :=
   match t, x with
   | TInt g a, GInt z => Some (WInt (enc_int g a z))
@@ -257,6 +282,7 @@ Fixpoint enc (t : ty) (x : gv) {struct t} : option wv :=
   | TTime, GTime s n => Some (WInt (enc_time s n))
   | TDur, GDur n => Some (WInt (enc_dur n))
   | TDec, GBytes _ b => option_map WInt (parse_dec b)
+  | TNamed _ t', _ => if named_enc_ok t' then enc t' x else None   (* the method set is not consulted *)
   | TPtr _, GNil => Some WNull
   | TPtr t', GPtr v => enc t' v
   | TList t', GList _ l => option_map WList (mapM (enc t') l)
@@ -276,6 +302,7 @@ Fixpoint zero (t : ty) : gv :=
   | TPtr _ => GNil
   | TList _ => GList false [] | TMap _ _ => GMap false []
   | TStruct fs => GStruct (map zero fs)
+  | TNamed _ t' => zero t'
   end.
 
 (* what a slot that IS null yields when the reader does not look at the validity
@@ -290,6 +317,7 @@ Fixpoint blind (t : ty) : gv :=
   | TPtr t' => GPtr (blind t')
   | TList _ => GList false [] | TMap _ _ => GMap false []
   | TStruct fs => GStruct (map zero fs)
+  | TNamed _ t' => blind t'
   end.
 
 Definition tm (p : Z * Z) : gv := GTime (fst p) (snd p).
@@ -310,6 +338,7 @@ Fixpoint dec (t : ty) (w : wv) {struct t} : option gv :=
   | TTime, WInt v => Some (tm (dec_time v))
   | TDur, WInt v => Some (GDur (dec_dur v))
   | TDec, WInt n => Some (GBytes false (fmt_dec n))
+  | TNamed _ t', _ => dec t' w       (* reflect.SetString / SetInt / SetBytes work on the Kind *)
   | TPtr _, WNull => Some GNil
   | TPtr t', w' => option_map GPtr (dec t' w')
   | TList t', WList l =>
@@ -341,6 +370,7 @@ Fixpoint trunc (t : ty) (x : gv) {struct t} : gv :=
   | TTs u _, GTime s n => GTime s (ts_trunc u n)
   | TTime, GTime s n => GTime (s mod DAY) (n / E3 * E3)
   | TDur, GDur n => GDur (Z.quot n E3 * E3)
+  | TNamed _ t', _ => trunc t' x
   | TPtr t', GPtr v => GPtr (trunc t' v)
   | TList t', GList _ l => GList false (map (trunc t') l)
   | TMap k v, GMap _ l => GMap false (map (fun p => (trunc k (fst p), trunc v (snd p))) l)
@@ -362,6 +392,7 @@ Fixpoint val_ok (t : ty) (x : gv) {struct t} : bool :=
   | TTs u _, GTime s n => time_ok s n && in64 (ts_raw u s n)
   | TTime, GTime s n => time_ok s n
   | TDur, GDur n => in64 n
+  | TNamed _ t', _ => val_ok t' x
   | TPtr _, GNil => true
   | TPtr t', GPtr v => val_ok t' v
   | TList t', GList _ l => forallb (val_ok t') l
@@ -384,6 +415,7 @@ Fixpoint wire_ok (t : ty) (w : wv) {struct t} : bool :=
   | TTs _ _, WInt v => in64 v
   | TTime, WInt v => (0 <=? v) && (v <? DAY * E6)
   | TDur, WInt v => dur_guard v
+  | TNamed _ t', _ => wire_ok t' w
   | TPtr _, WNull => true
   | TPtr t', w' => wire_ok t' w'
   | TList t', WList l => forallb (wire_ok t') l
@@ -394,7 +426,9 @@ Fixpoint wire_ok (t : ty) (w : wv) {struct t} : bool :=
 
 (* field types on which the theorems hold: no pointer to pointer (list elements,
    struct children and map items are nullable through ONE pointer), no nullable
-   map key, fixed-size binaries of positive width.  All four timestamp units. *)
+   map key, fixed-size binaries of positive width.  All four timestamp units.
+   Named types (with any method set) over strings, decimal text, large and
+   fixed-size binaries; the named kinds the serializer refuses are outside. *)
 Fixpoint ty_ok (t : ty) : bool :=
   match t with
   | TBin (BFix n) => 0 <? n
@@ -402,6 +436,7 @@ Fixpoint ty_ok (t : ty) : bool :=
   | TList t' => ty_ok t'
   | TMap k v => negb (is_ptr k) && ty_ok k && ty_ok v
   | TStruct fs => forallb ty_ok fs
+  | TNamed _ t' => named_enc_ok t' && ty_ok t'
   | _ => true
   end.
 
@@ -423,6 +458,7 @@ Fixpoint arrow_of (t : ty) : aty :=
   | TList t' => AList (arrow_of t')
   | TMap k v => AMap (arrow_of k) (arrow_of v)
   | TStruct fs => AStruct (map (fun f => (arrow_of f, is_ptr f)) fs)
+  | TNamed _ t' => arrow_of t'
   end.
 
 (* ---- decidable equalities ------------------------------------------------ *)
